@@ -138,7 +138,10 @@ func (lb *lockBook) close() {
 }
 
 // within runs f and reports whether it returned before the wedge bound.
-func within(f func()) (returned bool, panicked any) {
+func within(f func()) (returned bool, panicked any) { return withinB(wedgeAfter, f) }
+
+// withinB is within with a bound of its own (a scenario that is a long series of operations).
+func withinB(wedgeAfter time.Duration, f func()) (returned bool, panicked any) {
 	done := make(chan struct{})
 	var pv any
 	go func() {
@@ -191,6 +194,7 @@ func settledWalkers() int {
 }
 
 type lockRun struct {
+	bound time.Duration // bound of the next scenario as a whole, when it is a series of operations (0: the wedge bound)
 	out   *json.Encoder
 	lb    *lockBook
 	chain int
@@ -239,9 +243,16 @@ func (r *lockRun) scenario(kind string, k int, f func(lb *lockBook) string) {
 	r.n++
 	lb := r.lb
 	var res string
-	returned, pv := within(func() { res = f(lb) })
+	bound := wedgeAfter
+	if r.bound > 0 {
+		bound = r.bound
+	}
+	returned, pv := withinB(bound, func() { res = f(lb) })
 	if pv != nil {
 		res = fmt.Sprintf("panic: %v", pv)
+	}
+	if strings.Contains(res, "did not return") {
+		returned = false // an operation inside a series wedged
 	}
 	walkers := 0
 	probes := map[string]bool{}
@@ -397,9 +408,15 @@ func locksMain(args []string) {
 		lb.ab, _ = accountant.NewAccountingBook(ctx, accountant.Config{Truncate: 2000}, wallet.NewVerifier(), &lb.node, nopLogger{})
 		_, _ = lb.ab.CreateGenesis("GENESIS", spice.New(1_000_000, 0), []byte{}, lb.gr.Address())
 		r.lb = lb
+		// 3200 proposals, each of which has to return within the wedge bound; the series as a whole may take minutes
+		r.bound = 20 * time.Minute
 		r.scenario("truncate.realtrigger", 3200, func(lb *lockBook) string {
 			for i := 0; i < 3200; i++ {
-				if _, err := lb.propose(context.Background()); err != nil {
+				var err error
+				if ok, pv := within(func() { _, err = lb.propose(context.Background()) }); !ok || pv != nil {
+					return fmt.Sprintf("proposal %d did not return (panic: %v)", i, pv)
+				}
+				if err != nil {
 					return "propose:" + errClass(err)
 				}
 			}
@@ -416,6 +433,7 @@ func locksMain(args []string) {
 			}
 			return "no truncation happened"
 		})
+		r.bound = 0
 	}
 	// B4. the truncation loop is slow to start (its log write takes a while) after it took a triggering weight from
 	// the signal channel; meanwhile more leaves are admitted than the channel holds. Nobody may end up blocked on the
